@@ -119,9 +119,21 @@ func safeLogOpen(path string, flag int, perm os.FileMode) (*os.File, error) {
 
 type quietLogger struct{}
 
-func (quietLogger) Debug(...interface{}) {}
-func (quietLogger) Info(...interface{})  {}
-func (quietLogger) Error(...interface{}) {}
+func (quietLogger) Debug(a ...interface{}) {
+	if os.Getenv("VERIF_STAGE_LOG") == "2" {
+		fmt.Fprintln(os.Stderr, append([]interface{}{"D"}, a...)...)
+	}
+}
+func (quietLogger) Info(a ...interface{}) {
+	if os.Getenv("VERIF_STAGE_LOG") != "" {
+		fmt.Fprintln(os.Stderr, append([]interface{}{"I"}, a...)...)
+	}
+}
+func (quietLogger) Error(a ...interface{}) {
+	if os.Getenv("VERIF_STAGE_LOG") != "" {
+		fmt.Fprintln(os.Stderr, append([]interface{}{"E"}, a...)...)
+	}
+}
 func (quietLogger) Recent(int) []string  { return nil }
 
 func newStageRig() (*stageRig, error) {
